@@ -362,9 +362,14 @@ class ODE:
         if not isinstance(__o, ODE):
             return False
 
+        # The components are listed in the order they first appear in the text, which has
+        # no meaning: models that only differ in the order of their blocks are equal
+        def by_name(components):
+            return sorted(components, key=lambda component: component.name)
+
         return (
             __o.comments == self.comments
-            and __o.components == self.components
+            and by_name(__o.components) == by_name(self.components)
             and __o.name == self.name
         )
 
